@@ -146,7 +146,7 @@ impl Property for ScenarioProp {
         match (self.flavor, thorough) {
             (Flavor::C17, false) => 24_000,
             (Flavor::C17, true) => 600_000,
-            (Flavor::C18, false) => 16_000,
+            (Flavor::C18, false) => 48_000,
             (Flavor::C18, true) => 400_000,
         }
     }
@@ -154,7 +154,7 @@ impl Property for ScenarioProp {
         match (self.flavor, thorough) {
             (Flavor::C17, false) => 3_000,
             (Flavor::C17, true) => 60_000,
-            (Flavor::C18, false) => 2_000,
+            (Flavor::C18, false) => 4_000,
             (Flavor::C18, true) => 40_000,
         }
     }
